@@ -171,4 +171,48 @@ theorem cellText_noColon (c : Spec.ColEnd) (r : Spec.RowEnd) :
   · exact renderCol_noColon c x h
   · exact renderRow_noColon r x h
 
+/-! ### the parser inverts `render` -/
+
+/-- every endpoint index is at least 1 (weaker than `inGrid`: no upper bound needed) -/
+def Spec.Ref.pos : Spec.Ref → Prop
+  | .cell c r => 1 ≤ c.n ∧ 1 ≤ r.n
+  | .range c1 r1 c2 r2 => 1 ≤ c1.n ∧ 1 ≤ r1.n ∧ 1 ≤ c2.n ∧ 1 ≤ r2.n
+  | .cols c1 c2 => 1 ≤ c1.n ∧ 1 ≤ c2.n
+  | .rows r1 r2 => 1 ≤ r1.n ∧ 1 ≤ r2.n
+
+theorem parseRef_render (r : Spec.Ref) (h : Spec.Ref.pos r) : Spec.parseRef (Spec.render r) = some r := by
+  cases r with
+  | cell c ro =>
+    obtain ⟨h1, h2⟩ := h
+    unfold Spec.parseRef
+    simp only [Spec.render]
+    rw [splitColon_none _ (cellText_noColon c ro)]
+    simp [parseEnd_cell c ro h1 h2]
+  | range c1 r1 c2 r2 =>
+    obtain ⟨h1, h2, h3, h4⟩ := h
+    unfold Spec.parseRef
+    simp only [Spec.render]
+    have : Spec.renderCol c1 ++ Spec.renderRow r1 ++ [':'] ++ (Spec.renderCol c2 ++ Spec.renderRow r2)
+        = (Spec.renderCol c1 ++ Spec.renderRow r1) ++ ':' :: (Spec.renderCol c2 ++ Spec.renderRow r2) := by simp
+    rw [this, splitColon_one _ _ (cellText_noColon c1 r1) (cellText_noColon c2 r2)]
+    simp [parseEnd_cell c1 r1 h1 h2, parseEnd_cell c2 r2 h3 h4]
+  | cols c1 c2 =>
+    obtain ⟨h1, h3⟩ := h
+    unfold Spec.parseRef
+    simp only [Spec.render]
+    have : Spec.renderCol c1 ++ [':'] ++ Spec.renderCol c2 = Spec.renderCol c1 ++ ':' :: Spec.renderCol c2 := by simp
+    rw [this, splitColon_one _ _ (renderCol_noColon c1) (renderCol_noColon c2)]
+    simp [parseEnd_col c1 h1, parseEnd_col c2 h3]
+  | rows r1 r2 =>
+    obtain ⟨h2, h4⟩ := h
+    unfold Spec.parseRef
+    simp only [Spec.render]
+    have : Spec.renderRow r1 ++ [':'] ++ Spec.renderRow r2 = Spec.renderRow r1 ++ ':' :: Spec.renderRow r2 := by simp
+    rw [this, splitColon_one _ _ (renderRow_noColon r1) (renderRow_noColon r2)]
+    simp [parseEnd_row r1 h2, parseEnd_row r2 h4]
+
+theorem inGrid_pos {r : Spec.Ref} (h : Spec.inGrid r) : Spec.Ref.pos r := by
+  cases r <;> simp only [Spec.inGrid, Spec.colOk, Spec.rowOk, Spec.Ref.pos] at * <;> omega
+
+
 end XlModel.FormulaRef
